@@ -294,7 +294,7 @@ func runC06(c *runCtx) {
 			c06RunScenario(c, sc)
 		}
 	}
-	c06Clocks(c)
+	c06Clocks(c, "C06")
 }
 
 func c06RunScenario(c *runCtx, sc *c06Scenario) {
@@ -568,6 +568,15 @@ func c06Scenarios(c *runCtx, r *rng) []*c06Scenario {
 		b.Commit(other)
 	}
 	bug.Push(other, "origin")
+	// the other clone also changes an identity and adds one: a pull has identities to merge
+	oa.Mutate(other, func(m *identity.Mutator) { m.Login = "changed-remotely" })
+	if oa.NeedCommit() {
+		oa.Commit(other)
+	}
+	if ni, err := identity.NewIdentity(other, "joined later", "later@example.com"); err == nil {
+		ni.Commit(other)
+	}
+	identity.Push(other, "origin")
 	other.Close()
 	// locally: b1 diverges (local edit), b2 stays behind (fast-forward), b3 untouched, b4 new
 	editOn(base, b1, authors[2], 1)
@@ -761,7 +770,7 @@ func (f *crashFS) TempFile(dir, prefix string) (billy.File, error) {
 func (f *crashFS) Rename(a, b string) error { f.tick("Rename"); return f.Filesystem.Rename(a, b) }
 func (f *crashFS) Remove(a string) error    { f.tick("Remove"); return f.Filesystem.Remove(a) }
 
-func c06Clocks(c *runCtx) {
+func c06Clocks(c *runCtx, prop string) {
 	r := c.rng.fork()
 	// a repository with a bug whose clocks stand at several digits
 	repo, dir := newGoGit("c06clock", false)
@@ -775,10 +784,13 @@ func c06Clocks(c *runCtx) {
 	if err := b.Commit(repo); err != nil {
 		panic(err)
 	}
+	// the clocks stand above every stored time (bugs seen and removed since, witnessed remotes)
+	repo.Witness("bugs-edit", lamport.Time(start+1000))
+	repo.Witness("bugs-create", lamport.Time(start/2+1007))
 	repo.Close()
-	pre, _, err := viewOfDir(dir)
+	pre, preClocks, err := viewOfDir(dir)
 	if err != nil {
-		c.violation(-1, "C06/harness", "clock scenario: "+err.Error(), nil)
+		c.violation(-1, prop+"/harness", "clock scenario: "+err.Error(), nil)
 		return
 	}
 	for _, clockName := range []string{"bugs-edit", "bugs-create"} {
@@ -831,22 +843,26 @@ func c06Clocks(c *runCtx) {
 					where := fmt.Sprintf("clock %s, %s, process dies at file operation %d (%s) of %v with %d bytes written", clockName, what, k, ops[k], ops, j)
 					c.context(where)
 					if !died {
-						c.violation(-1, "C06/harness", where+": crash point not reached", nil)
+						c.violation(-1, prop+"/harness", where+": crash point not reached", nil)
 					}
 					content, _ := os.ReadFile(filepath.Join(dirK, ".git", gbNamespace, "clocks", clockName))
 					c.count(fmt.Sprintf("clock-content-after-crash=%q", content))
 					v, clocks, err := viewOfDir(dirK)
 					if err != nil {
-						c.violation(-1, "C06/cannot-reopen", fmt.Sprintf("%s: the clock file holds %q and the repository does not open again: %v", where, content, err), map[string]any{"clock": clockName, "op": k, "bytes": j})
+						c.violation(-1, prop+"/cannot-reopen", fmt.Sprintf("%s: the clock file holds %q and the repository does not open again: %v", where, content, err), map[string]any{"clock": clockName, "op": k, "bytes": j})
 						os.RemoveAll(dirK)
 						continue
 					}
 					if len(v.Errors) > 0 || mustJSON(v.Bugs) != mustJSON(pre.Bugs) {
-						c.violation(-1, "C06/unreadable-entity", fmt.Sprintf("%s: entities read differently: %v", where, v.Errors), nil)
+						c.violation(-1, prop+"/unreadable-entity", fmt.Sprintf("%s: entities read differently: %v", where, v.Errors), nil)
+					}
+					// a clock never goes back across the death of a process
+					if clocks[clockName] < preClocks[clockName] {
+						c.violation(-1, prop+"/clock-went-back", fmt.Sprintf("%s: clock %s stood at %d before, and is %d after reopening (file content %q)", where, clockName, preClocks[clockName], clocks[clockName], content), map[string]any{"clock": clockName, "op": k, "bytes": j})
 					}
 					me, mc := storedTimes(dirK)
 					if clocks["bugs-edit"] < me || clocks["bugs-create"] < mc {
-						c.violation(-1, "C06/clock-behind", fmt.Sprintf("%s: the clock file holds %q; clocks %v, stored edit time %d, create time %d", where, content, clocks, me, mc), map[string]any{"clock": clockName, "op": k, "bytes": j})
+						c.violation(-1, prop+"/clock-behind", fmt.Sprintf("%s: the clock file holds %q; clocks %v, stored edit time %d, create time %d", where, content, clocks, me, mc), map[string]any{"clock": clockName, "op": k, "bytes": j})
 					}
 					// and the next edit is written with a time above everything stored
 					if rr, err := openGoGit(dirK); err == nil {
@@ -855,16 +871,16 @@ func c06Clocks(c *runCtx) {
 							op, _, _ := gg.next()
 							bb.Append(op)
 							if err := bb.Commit(rr); err != nil {
-								c.violation(-1, "C06/clock-unusable", fmt.Sprintf("%s: the next edit fails: %v", where, err), nil)
+								c.violation(-1, prop+"/clock-unusable", fmt.Sprintf("%s: the next edit fails: %v", where, err), nil)
 							} else if uint64(bb.EditLamportTime()) <= me {
-								c.violation(-1, "C06/clock-behind", fmt.Sprintf("%s: the next edit got time %d, stored %d", where, bb.EditLamportTime(), me), nil)
+								c.violation(-1, prop+"/clock-behind", fmt.Sprintf("%s: the next edit got time %d, stored %d", where, bb.EditLamportTime(), me), nil)
 							}
 						} else {
-							c.violation(-1, "C06/unreadable-entity", where+": "+err.Error(), nil)
+							c.violation(-1, prop+"/unreadable-entity", where+": "+err.Error(), nil)
 						}
 						rr.Close()
 					} else {
-						c.violation(-1, "C06/cannot-reopen", fmt.Sprintf("%s: the clock file holds %q: %v", where, content, err), nil)
+						c.violation(-1, prop+"/cannot-reopen", fmt.Sprintf("%s: the clock file holds %q: %v", where, content, err), nil)
 					}
 					os.RemoveAll(dirK)
 				}
